@@ -79,21 +79,32 @@ def verdicts(key, prefix, uni, hash_too):
                 (Client, "Client(ignore_exc).get", ("/s",), {"ignore_exc": True}),
                 (PooledClient, "PooledClient(ignore_exc).get", ("/s",), {"ignore_exc": True}),
                 (HashClient, "HashClient(ignore_exc).get", (["/s"],), {"ignore_exc": True}),
-                (HashClient, "HashClient(pooled,ignore_exc).get", (["/s"],), {"ignore_exc": True, "use_pooling": True})):
+                (HashClient, "HashClient(pooled,ignore_exc).get", (["/s"],), {"ignore_exc": True, "use_pooling": True}),
+                # the value encoding must not leak into key validation
+                (Client, "Client(encoding=utf8).get", ("/s",), {"encoding": "utf8"}),
+                (PooledClient, "PooledClient(encoding=latin-1).get", ("/s",), {"encoding": "latin-1"}),
+                (HashClient, "HashClient(encoding=utf8).get", (["/s"],), {"encoding": "utf8"}),
+                # no server in rotation: an illegal key is still an illegal key
+                (HashClient, "HashClient(no servers).get", ([],), {}),
+                (HashClient, "HashClient(no servers,ignore_exc).get", ([],), {"ignore_exc": True})):
             mod = RecModule()
             h = cls(*args, key_prefix=prefix, allow_unicode_keys=uni, socket_module=mod, **kw)
+            noserv = "no servers" in name
             try:
                 r = h.get(key, "MISS")
                 sent = b"".join(mod.log)
                 if not sent:
-                    out.append((name, "silently-ignored", None))
+                    out.append((name, "no-server-default" if noserv else "silently-ignored", None))
                     continue
                 wire = sent[4:-2] if sent.startswith(b"get ") and sent.endswith(b"\r\n") else sent
                 out.append((name, "ok", wire))
             except MemcacheIllegalInputError:
                 out.append((name, "illegal" if not mod.log else "illegal-after-sending", None))
             except Exception as e:
-                out.append((name, "other:" + type(e).__name__, None))
+                if noserv and type(e).__name__ == "MemcacheError":
+                    out.append((name, "no-server-error", None))
+                else:
+                    out.append((name, "other:" + type(e).__name__, None))
     return out
 
 
@@ -107,7 +118,12 @@ def judge(chk, key, prefix, uni, hash_too):
         chk.outcome((rs, len(prefix), uni, hash_too))
     for name, got, w in verdicts(key, prefix, uni, hash_too):
         bad = None
-        if got.startswith("other"):
+        if got in ("no-server-default", "no-server-error"):
+            # nothing can be sent; a legal key gets the default / 'all servers down'; an illegal key must still be rejected
+            if verdict == "illegal":
+                bad = ("illegal-key-not-reported", "did not raise MemcacheIllegalInputError for an illegal key "
+                       f"({'returned the default' if got == 'no-server-default' else 'raised MemcacheError instead'})")
+        elif got.startswith("other"):
             bad = ("wrong-exception", f"raised {got[6:]} instead of accepting or MemcacheIllegalInputError")
         elif got == "silently-ignored":
             if verdict == "illegal":
